@@ -356,6 +356,11 @@ class Orchestrator:  # thailint: ignore[srp]
         """Safely check a rule, returning empty list on error."""
         try:
             return rule.check(context)
+        except UnicodeError:
+            # UnicodeError is a ValueError, but it is a property of the file (e.g. a name with
+            # undecodable bytes), not a configuration error: isolate it like any rule failure
+            logger.exception("Rule %s failed on %s", rule.rule_id, context.file_path)
+            return []
         except ValueError:
             # Re-raise configuration validation errors (these are user-facing)
             raise
